@@ -49,18 +49,18 @@ func init() {
 }
 
 type accReadings struct {
-	Query, QueryD               string
-	Trim, TrimD                 string
-	Strings, StringsD           []string
-	Unescape, UnescapeD         string
-	Bool, BoolD                 bool
-	Int, IntD                   int
-	Int64, Int64D               int64
-	Float, FloatD               float64
-	Param, ParamAbsent          string
-	ParamInt, ParamIntAbsent    int
-	ParamInt64                  int64
-	ParamsLen                   int
+	Query, QueryD            string
+	Trim, TrimD              string
+	Strings, StringsD        []string
+	Unescape, UnescapeD      string
+	Bool, BoolD              bool
+	Int, IntD                int
+	Int64, Int64D            int64
+	Float, FloatD            float64
+	Param, ParamAbsent       string
+	ParamInt, ParamIntAbsent int
+	ParamInt64               int64
+	ParamsLen                int
 }
 
 const (
